@@ -100,7 +100,9 @@ func main() {
 		verifDir = "/verif"
 	}
 	overlay := map[string]string{}
-	for src, dst := range map[string]string{"cmd/gxz": "gxz", "internal/gflag": "gflag", "internal/xlog": "xlog"} {
+	// internal/term goes in unmodified: the real IsTerminal code runs against
+	// real kernel objects that stand behind the simulated standard output
+	for src, dst := range map[string]string{"cmd/gxz": "gxz", "internal/gflag": "gflag", "internal/xlog": "xlog", "internal/term": "term"} {
 		ents, _ := os.ReadDir(filepath.Join(root, src))
 		for _, e := range ents {
 			name := e.Name()
